@@ -102,14 +102,14 @@ func init() {
 
 	preds := []string{"isOdd", "gt1", "true", "false", "eq2"}
 	starDriver("mapops", func(cfg Config, r *starRun, rng *rand.Rand) {
-		// all maps with up to 4 entries over keys 1..4 and values 1..3
+		// all maps with up to 4 entries over keys 0..3 and values 0..2 (zero keys and values included)
 		var maps [][]int
 		for code := 0; code < 256; code++ { // 4 keys x (absent,1,2,3)
 			var m []int
 			for k := 0; k < 4; k++ {
 				v := (code >> (2 * k)) & 3
 				if v > 0 {
-					m = append(m, k+1, v)
+					m = append(m, k, v-1)
 				}
 			}
 			if m == nil {
@@ -121,7 +121,12 @@ func init() {
 		if cfg.Tier == "thorough" {
 			reps = 8
 		}
-		keyLists := slicesUpTo([]int{1, 2, 5}, 2)
+		keyLists := slicesUpTo([]int{0, 1, 5}, 2)
+		// longer lists: absent and repeated keys ahead of a present one
+		keyLists = append(keyLists, []int{5, 7, 0}, []int{5, 5, 0, 1}, []int{7, 5, 1}, []int{5, 7, 9, 2, 0}, []int{0, 0, 1})
+		if cfg.Tier == "thorough" {
+			keyLists = append(keyLists, slicesUpTo([]int{0, 1, 5}, 3)...)
+		}
 		for _, m := range maps {
 			for rep := 0; rep < reps; rep++ {
 				for _, fn := range []string{"Keys", "Values", "Invert", "MapUnique"} {
@@ -178,7 +183,7 @@ func init() {
 				}
 			}
 		}
-		s3 := slicesUpTo([]int{1, 2, 3}, 3)
+		s3 := slicesUpTo([]int{0, 1, 2}, 3)
 		for _, a := range s3 {
 			for _, b := range s3 {
 				if len(a) == len(b) || len(a) == len(b)+1 {
